@@ -1423,7 +1423,28 @@ pub fn gen_program(rng: &mut Rng, cfg: &GenCfg) -> Program {
         let pos = rng.below(bodies[b].len() + 1);
         bodies[b].insert(pos, Op::Fail);
     }
+    // Exclusion for known finding F9 (pinned witness in C18's batch `known`): on an UNFAIR semaphore
+    // a task that keeps a queued Acquire alive across a scheduling point without awaiting it may be
+    // blocked by another task's acquisition (reblock_if_unfair). Cancellations that do so (0 or 2
+    // polls) are generated for fair semaphores only, in every family.
+    for ops in bodies.iter_mut() {
+        exclude_f9(ops, &res);
+    }
     Program { res, bodies }
+}
+
+fn exclude_f9(ops: &mut [Op], res: &Resources) {
+    for o in ops.iter_mut() {
+        match o {
+            Op::SemCancel(sm, _, polls) => {
+                if !res.sems[*sm].1 {
+                    *polls = 1;
+                }
+            }
+            Op::Scope(_, inner) | Op::Catch(inner) => exclude_f9(inner, res),
+            _ => {}
+        }
+    }
 }
 
 #[allow(clippy::too_many_arguments)]
